@@ -75,7 +75,7 @@ STMTS = {
     # ++= whose right operand is still held elsewhere (a variable, a literal's buffer): only the left side has to be unshared
     "list_concat_var": (["lv := []", "lw := [1, 2]"], "lv ++= lw", "len(lv)", lambda n: 2 * n),
     "bytes_concat_literal": (["bv := B\"\""], "bv ++= B\"ab\"", "len(bv)", lambda n: 2 * n),
-    "rows_concat_var": (["rv := [[], 0]", "rw := [1]"], "rv[0] ++= rw", "len(rv[0])", lambda n: n),
+    "rows_concat_var": (["rv := [[], 0]", "rcw := [1]"], "rv[0] ++= rcw", "len(rv[0])", lambda n: n),
     "vector_concat_var": (["vv := V()", "vw := V(1, 2)"], "vv ++= vw", "len(vv)", lambda n: 2 * n),
     # strings are collections too (Seq::String): one-character slot assignment on an unaliased string of 8n bytes
     "string_set": (["s8 := 'a' $* (8*N)"], "s8[i] = 'b'", "len(s8 filter (== 'b'))", lambda n: n),
@@ -97,6 +97,24 @@ INFO_ONLY = {
     "functional_update": (["fu := 0 .* N"], "fu = fu{i = 1}", "fu[0]", lambda n: 1),
     "every_opassign": (["eo := 0 .* N"], "every eo[0:2] += i", "len(eo)", lambda n: n),
 }
+
+
+def _declared_names():
+    """every workload declares its own variables: interleavings of several workloads share one session"""
+    import re
+    seen = {}
+    for nm, (setup, _b, _p, _e) in list(STMTS.items()) + list(INFO_ONLY.items()):
+        for st_ in setup:
+            m = re.match(r"\s*(?:struct\s+(\w+)|(\w+)\s*(?::\s*\w+)?\s*:?=)", st_)
+            v = m and (m.group(1) or m.group(2))
+            if v:
+                if seen.get(v, nm) != nm:
+                    raise GeneratorBug("workloads %s and %s both declare %s" % (seen[v], nm, v))
+                seen[v] = nm
+    return seen
+
+
+_declared_names()
 
 
 def sub(s, n):
